@@ -23,6 +23,36 @@ if os.path.isdir(_deps) and _deps not in sys.path:
 
 import numpy as np
 
+# ---------------------------------------------------------------------------
+# optional line-coverage probe (VERIF_LINECOV=<dir>): which statements of dfols/*.py did the workload of this process execute?
+# sys.monitoring LINE events with DISABLE after the first hit: each location costs one callback, so the probe is free. It is a
+# coverage audit of the WORKLOAD (tools/linecov.py lists the statements no check ever reached), never a verdict.
+# ---------------------------------------------------------------------------
+_LINECOV_DIR = os.environ.get("VERIF_LINECOV")
+_LINES_HIT = set()
+if _LINECOV_DIR and hasattr(sys, "monitoring"):
+    _TOOL = 4
+    _pref = os.path.join(REPO, "dfols") + os.sep
+
+    def _on_line(code, lineno):
+        fn = code.co_filename
+        if fn.startswith(_pref) and os.sep + "tests" + os.sep not in fn:
+            _LINES_HIT.add((os.path.basename(fn), lineno))
+        return sys.monitoring.DISABLE
+    try:
+        sys.monitoring.use_tool_id(_TOOL, "vf-linecov")
+        sys.monitoring.register_callback(_TOOL, sys.monitoring.events.LINE, _on_line)
+        sys.monitoring.set_events(_TOOL, sys.monitoring.events.LINE)
+        import atexit
+
+        def _dump_lines():
+            os.makedirs(_LINECOV_DIR, exist_ok=True)
+            with open(os.path.join(_LINECOV_DIR, "lines-%d.json" % os.getpid()), "w") as f:
+                json.dump(sorted(_LINES_HIT), f)
+        atexit.register(_dump_lines)
+    except Exception:
+        pass
+
 import dfols  # noqa: E402  (must come from REPO's working tree)
 import dfols.solver, dfols.controller, dfols.model, dfols.util, dfols.trust_region, dfols.params, dfols.diagnostic_info  # noqa
 
